@@ -76,12 +76,13 @@ def mc_configs(tier):
              ["SetBc", "Join", "DropMember", "SendBcast", "SendMcNet", "SendMcLoop", "SendRefused", "DeliverQueued",
               "DeliverUnbound", "DeliverFull", "LoDeliverQueued", "RecvWhole"]),
             ("mc_cap1", base_consts(Cap=1, DstPorts={1}, DstKinds={"host", "lo", "bcast"}, Ops={"setbc", "send", "recv", "readable"},
-                                    MaxSend=3, MaxSock=2, MaxCtl=1),
+                                    Bufs={8}, MaxSend=3, MaxSock=2, MaxCtl=1),
              ["SendRemote", "SendLoop", "SendBcast", "DeliverFull", "RecvBuffered", "ReadableOk"]),
             ("mc_twoports", base_consts(FixedPorts={1, 2}, EphLo=3, EphHi=3, DstPorts={1, 2}, PreBind={111, 121, 211},
-                                        DstKinds={"host", "lo", "mc"}, Ops={"join", "connect", "drop", "send", "recv"},
-                                        Bufs={8}, MaxSend=2, MaxSock=3, MaxCtl=2),
-             ["Join", "Connect", "DropMember", "SendRemote", "SendSelf", "SendMcLoop", "DeliverPeer", "RecvWhole"]),
+                                        DstKinds={"host", "lo", "mc"}, Ops={"join", "connect", "send", "recv"},
+                                        Bufs={8}, MaxSend=2, MaxSock=3, MaxCtl=1),
+             ["Join", "Connect", "SendRemote", "SendSelf", "SendMcLoop", "SendMcNet", "DeliverPeer", "LoDeliverDropped",
+              "RecvWhole"]),
         ]
     return cfgs
 
@@ -115,7 +116,7 @@ def gen_configs(tier, seed):
 
 def random_configs(tier, seed):
     q = tier == "quick"
-    runs = 30 if q else 200
+    runs = 30 if q else 120
     base = [dict(n=3, cap=2, nfixed=2, neph=2, tick=2, gmin=0, gmax=5, v6=0),
             dict(n=2, cap=1, nfixed=1, neph=2, tick=1, gmin=1, gmax=3, v6=1),
             dict(n=4, cap=3, nfixed=2, neph=1, tick=3, gmin=0, gmax=7, v6=0)]
@@ -218,7 +219,7 @@ def run(pid, tier, seed, replay=None):
         # (-simulate restarts a walk whenever a behaviour is complete, so `num` walks give a few thousand
         # behaviours; the timeout only caps the time, the behaviours printed until then are used)
         r = vlib.run_tlc(SUB, "MsgUdpGen", cfg, f"{pid}_{name}", workers=4 if sim else 10,
-                         timeout=(60 if tier == "quick" else 240) if sim else 1500, heap="12g",
+                         timeout=(60 if tier == "quick" else 150) if sim else 1500, heap="12g",
                          simulate=sim, seed=seed if sim else None)
         if r.violated or r.error or (r.timed_out and not sim):
             log(vlib.counterexample_text(r))
